@@ -10,7 +10,7 @@ import itertools
 
 from .actors import (
     Item, Unorderable, SrcPlan, FnPlan, ALL_FLAVOURS, FN_FLAVOURS, LOGGING_FLAVOURS,
-    ASYNC_FLAVOURS, _behave, keyof,
+    ASYNC_FLAVOURS, CONTAINER_FLAVOURS, SYNC_FLAVOURS, _behave, keyof,
 )
 
 _lib = None
@@ -63,12 +63,12 @@ def draw_cfg(ch, logging_only=False, async_only=False, all_suspend=False, odd_it
         cfg.src_flavours = LOGGING_FLAVOURS
         cfg.logging_only = True
         if palette == 1:
-            cfg.src_flavours = ("sync_iter", "getitem")
+            cfg.src_flavours = ("sync_iter", "getitem", "seq_abc", "set_abc")
         elif palette == 2:
             cfg.src_flavours = ASYNC_FLAVOURS
     else:
         if palette == 1:
-            cfg.src_flavours = ("list", "tuple", "getitem", "sync_iter")
+            cfg.src_flavours = SYNC_FLAVOURS
         elif palette == 2:
             cfg.src_flavours = ASYNC_FLAVOURS
         elif palette == 3:
@@ -96,6 +96,8 @@ class Gen:
         self.nfn = 0
         self.prefix = prefix
         self.all_suspend = False
+        # all class-based sources of this scenario compare equal to each other (distinct objects all the same)
+        self.equal_sources = bool(cfg.odd_sources) and ch.chance(1, 8)
 
     def item(self, key=None, truth=True):
         self.uid += 1
@@ -133,7 +135,7 @@ class Gen:
         if len(srcs) >= 2 and self.cfg.odd_sources and self.ch.chance(1, 8):
             j = self.ch.between(1, len(srcs) - 1)
             i = self.ch.draw(j)
-            if srcs[i].flavour in ("list", "tuple", "getitem"):
+            if srcs[i].flavour in CONTAINER_FLAVOURS:
                 # a container passed twice is iterated twice independently; the idiom needs a one-shot iterator
                 srcs[i].flavour = "sync_iter"
             return (i, j)
@@ -162,9 +164,11 @@ class Gen:
         if self.cfg.odd_sources and fl in ("aiter_cls", "aiter_full", "aiterable"):
             mode = self.ch.weighted([6, 1, 1])
         falsy = False
-        if self.cfg.odd_sources and fl not in ("list", "tuple", "getitem", "agen"):
+        if self.cfg.odd_sources and fl not in CONTAINER_FLAVOURS and fl != "agen":
             falsy = self.ch.chance(1, 8)
-        return SrcPlan(name, items, fl, susp, ac, aclose_mode=mode, falsy=falsy)
+        resilient = fl == "agen" and self.cfg.odd_sources and self.ch.chance(1, 6)
+        equal = self.equal_sources and fl in ("aiter_cls", "aiter_full", "aiter_noclose")
+        return SrcPlan(name, items, fl, susp, ac, aclose_mode=mode, falsy=falsy, resilient=resilient, equal=equal)
 
     def fn(self, kind, param=0):
         fls = self.cfg.fn_flavours
@@ -207,7 +211,7 @@ class Gen:
 class Spec:
     """A drawn scenario for one operation: pure data, instantiated once per world"""
 
-    __slots__ = ("tool", "srcs", "fns", "p", "steps", "shape", "_items_before")
+    __slots__ = ("tool", "srcs", "fns", "p", "steps", "shape", "_items_before", "_faults")
 
     def __init__(self, tool, srcs, fns, p):
         self.tool = tool
@@ -947,7 +951,10 @@ class _NBest(AggBase):
         return getattr(L, self.which)(S[0], spec.p["n"], key=F[0])
 
     def r(self, spec, S, F):
-        return getattr(heapq, self.which)(spec.p["n"], S[0], key=F[0])
+        # heapq short-cuts to sorted()[:n] for *sized* iterables with n >= len: same result, but another order of
+        # pulls and key calls than its general algorithm, which is the one being compared; hide the size
+        src = iter(S[0]) if hasattr(S[0], "__len__") else S[0]
+        return getattr(heapq, self.which)(spec.p["n"], src, key=F[0])
 
 
 @_reg(AGGS, "nlargest")
